@@ -1,5 +1,5 @@
 ID = 'C18'
-UNITS = {'time': dict(wrap='wrap.cc', new_block=64)}
+UNITS = {'time': dict(wrap='wrap.cc', new_block=64, per_harness={'h_ftime.c': {'new_block': 192}})}
 BOUNDS = ''
 STUBS = []
 OUTSIDE = []
@@ -11,6 +11,15 @@ def queries(tier):
         d = dict(name=name, unit='time', harness=harness, defs=defs, unwind=unwind, timeout=timeout, mem_gb=mem_gb, desc=desc, bounds=bounds)
         d.update(kw)
         qs.append(d)
-    for be in ('', 'cadical', 'kissat', 'cvc5'):
-        q('duration_all_%s' % be, 'h_duration.c', {}, 26, 120, backend=be)
+    for mag in (1, 3):
+        q('dur_m%d_p0_n1' % mag, 'h_duration.c', {'MAG': mag, 'PREC': 0, 'NINT': 1, 'CHECK': 0}, 26, 120)
+    for mode in (0, 1):
+        for be in ('', 'kissat', 'cvc5'):
+            q('timeval_%d_%s' % (mode, be), 'h_timeval.c', {'MODE': mode}, 4, 120, backend=be)
+    q('ftime_s19', 'h_ftime.c', {'SLEN': 19, 'CHECK': 0}, 130, 300)
+    for be in ('', 'kissat', 'cvc5'):
+        q('ftime_val_%s' % be, 'h_ftime.c', {'SLEN': 19, 'CHECK': 1}, 130, 300, backend=be)
+    q('fsize', 'h_fsize.c', {}, 34, 300)
+    for n in (0, 1, 2, 3):
+        q('psize_len%d' % n, 'h_psize.c', {'LEN': n}, n + 3, 300)
     return qs
